@@ -204,7 +204,8 @@ def exhaustive_cases(nmax, snap_upto=99):
             evs = [[ITEM_PATTERN[k], ts[k]] for k in range(n)]
             for w in range(1, 5):
                 for s in range(1, 5):
-                    cases.append({"w": w, "s": s, "evs": evs, "snap": n <= snap_upto})
+                    # one window with both consumers: Receiver dropped before event d, for every d, and never
+                    cases.append({"w": w, "s": s, "evs": evs, "snap": n <= snap_upto, "drops": [None] + list(range(n))})
     return cases
 
 
@@ -230,7 +231,8 @@ def random_stream(rng, n, wmax, base=0, pool=None):
         else:
             g = rng.randint(0, 3 * w + s)
         t += g
-    return {"w": w, "s": s, "evs": evs}
+    drops = [None, 0, rng.randrange(n), rng.randrange(n)]     # channel Receiver dropped: never / before the stream / mid-stream
+    return {"w": w, "s": s, "evs": evs, "drops": drops}
 
 
 def disorder(rng, c):
@@ -238,7 +240,7 @@ def disorder(rng, c):
     for _ in range(rng.randint(1, 3)):
         i, j = rng.randrange(len(evs)), rng.randrange(len(evs))
         evs[i][1], evs[j][1] = evs[j][1], evs[i][1]
-    return {"w": c["w"], "s": c["s"], "evs": evs, "snap": c.get("snap", False), "disorder": True}
+    return {"w": c["w"], "s": c["s"], "evs": evs, "snap": c.get("snap", False), "disorder": True, "drops": c.get("drops", [])}
 
 
 def scope_cases(rng, thorough):
@@ -345,6 +347,22 @@ def evaluate(ctx, binpath, cases, stream, chunk=None):
                     sc = hk["steps"][f["k"]]["scoped"]
                     if [f["open"], f["close"], f["items"], f["lc"]] not in sc:
                         differ = "model's reported window %r is not an active window of the implementation" % (f,)
+        # one window with a channel consumer AND a callback consumer, the channel's Receiver dropped before event d:
+        # the callback must see the same firings as ever, the channel those of the events before d
+        both_bad = None
+        for b in im.get("both") or []:
+            st["both_runs"] = st.get("both_runs", 0) + 1
+            d = b["drop"]
+            if b["cb"] != ifs:
+                both_bad = (d, b["cb"], "with a channel consumer whose Receiver was dropped before event %s, the callback "
+                            "consumer of the same window receives different firings" % d)
+                break
+            if b["ch"] != [f for f in ifs if d is None or f["k"] < d]:
+                both_bad = (d, None, "the channel consumer (Receiver dropped before event %s) did not receive exactly the firings of "
+                            "the earlier events" % d)
+                break
+        if both_bad and not differ:
+            differ = both_bad[2]
         if differ:
             st["impl_model_mismatches"] += 1
         if not in_order(evs):
@@ -353,17 +371,27 @@ def evaluate(ctx, binpath, cases, stream, chunk=None):
                 ctx.broken("correspondence", stream, differ + " (out-of-order stream)", {"case": c, "impl": im, "model": mfs})
             continue
         # the Spec is the oracle, on the implementation's output
-        for fl in ([ifs] if im["ch"] == ifs else [ifs, im["ch"]]):
+        vcase = {"w": w, "s": s, "evs": evs, "snap": bool(c.get("snap"))}
+        views = [ifs] if im["ch"] == ifs else [ifs, im["ch"]]
+        if both_bad and both_bad[1] is not None:
+            views.append(both_bad[1])
+        for fl in views:
             bad, skipped = oracle(w, s, evs, fl)
             if bad:
+                if both_bad and fl is both_bad[1]:
+                    vcase["drops"] = [both_bad[0]]
+                    bad = [(bad[0][0], "one window with a channel consumer (Receiver dropped before event %s) and a callback "
+                            "consumer; seen by the callback: %s" % (both_bad[0], bad[0][1]))] + bad[1:]
                 break
+        if not bad and len(views) > 1:
+            _, skipped = oracle(w, s, evs, ifs)
         st["closings_judged"] += len(closings(s, evs)) - len(skipped)
         st["gap_class_skipped"] += len(skipped)
         if skipped:
             gap_seen.append((c, skipped))
         if bad:
             st["spec_violations"] += 1
-            ctx.violation({"w": w, "s": s, "evs": evs, "snap": bool(c.get("snap"))},
+            ctx.violation(vcase,
                           {"what": bad[0][1], "clause": bad[0][0], "all": [b[1] for b in bad[:5]],
                            "implementation_firings": fl, "model_firings": mfs})
         elif differ:
@@ -472,10 +500,20 @@ def coq_obligations(ctx):
         ctx.coverage["coqchk"] = "ok" if chk1 == "ok" and ctx.coverage.get("coqchk") == "ok" else "FAILED"
 
 
+def driver(ctx):
+    """the driver built against /repo; VERIF_C09_BIN points at a driver built elsewhere (used to try seeded changes
+    on a private copy of the repository without touching /repo)"""
+    alt = os.environ.get("VERIF_C09_BIN")
+    if alt:
+        ctx.log("using driver %s (VERIF_C09_BIN)" % alt)
+        return alt
+    return ctx.harness("c09")
+
+
 def run(ctx):
     private_workdir(ctx)
     coq_obligations(ctx)
-    binpath = ctx.harness("c09")
+    binpath = driver(ctx)
     known_witness(ctx, binpath)
     # corpus first
     corpus = load_corpus()
@@ -509,7 +547,7 @@ def run(ctx):
 
 def replay(ctx):
     private_workdir(ctx)
-    binpath = ctx.harness("c09")
+    binpath = driver(ctx)
     c = ctx.replay.get("case")
     if not c or "w" not in c:
         b = (ctx.replay.get("broken") or [{}])[0].get("case") or {}
